@@ -72,7 +72,16 @@ pub async fn transfer_tcp<NewContext, Context, NewCodec, Codec>(
     let config = Arc::new(config);
     match context {
         Ok(context) => {
-            while let Ok((mut inbound, local_addr)) = listener.accept().await {
+            loop {
+                // a failing accept (for instance EMFILE while descriptors are exhausted) is not the end of the service
+                let (mut inbound, local_addr) = match listener.accept().await {
+                    Ok(accepted) => accepted,
+                    Err(e) => {
+                        error!("[tcp] accept failed; error={}", e);
+                        time::sleep(Duration::from_millis(100)).await;
+                        continue;
+                    }
+                };
                 let context = context.clone();
                 let config = config.clone();
                 tokio::spawn(async move {
